@@ -273,10 +273,13 @@ class World:
             elif kind == "method":
                 cc.instance_method(schema, key)(lambda cfg, a=1, *args, **kw: ("called", a))
             else:
-                field = specs.build_field(cc, child, **self._default(child, cpath))
+                late = child.get("sensitive_late") and child.get("sensitive") is not None
+                field = specs.build_field(cc, dict(child, sensitive=None) if late else child, **self._default(child, cpath))
                 if child.get("validator"):
                     self._log_field_validator(field, cpath, child["validator"], child)
                 schema._add_field(key, field)
+                if late:
+                    field.sensitive = child["sensitive"]  # the public attribute, set after the field joined its schema
         return schema
 
     # -- navigation --------------------------------------------------------------------------
@@ -443,7 +446,12 @@ def sweep(world, cfg, R, site, node=None, path=()):
         R.check(value is via_item or value == via_item, "sweep", site + ":getitem", "attribute and item access disagree")
         if value is None:
             continue
-        verdict = refmodel.ref(dict(child, req=False), value, world.ctx)  # 'required' is C11's concern, not a C01 constraint
+        judged = dict(child, req=False)  # 'required' is C11's concern, not a C01 constraint
+        if kind in ("list", "dict") and (child.get("item") or child.get("keyf") or child.get("valuef")):
+            # a typed container may have been mutated in place since it was assigned: items / entries are validated
+            # then, the field's own custom validator (not one of the declared constraints C01 lists) is not run again
+            judged["validator"] = None
+        verdict = refmodel.ref(judged, value, world.ctx)
         if verdict[0] == U:
             R.unknown += 1
             continue
